@@ -154,8 +154,12 @@ class DagLoopWorld(QueryWorld):
 
     def call_method(self, ip, obj, name, args, kwargs, node):
         if isinstance(obj, OccV):
-            if name == "split" and args and isinstance(args[0], Const) and args[0].v == "_":
+            if name in ("split", "rsplit") and args and isinstance(args[0], Const) and args[0].v == "_" and (
+                    len(args) == 1 or (len(args) == 2 and isinstance(args[1], Const) and isinstance(args[1].v, int) and args[1].v >= 1)):
+                # labels contain no '_' (the property's own restriction): exactly one separator
                 return ListObj([NodeV(obj.role), TidStr(obj.tid)])
+            if name in ("partition", "rpartition") and len(args) == 1 and isinstance(args[0], Const) and args[0].v == "_":
+                return TupleV([NodeV(obj.role), Const("_"), TidStr(obj.tid)])
             if name in ("startswith", "endswith") and len(args) == 1:
                 full = "%s_%s" % (LABELS[obj.role], "TID")
                 other = args[0]
@@ -167,7 +171,7 @@ class DagLoopWorld(QueryWorld):
                     raise Unsupported(node, "%s(%r)" % (name, other))
                 return Const(full.startswith(pre) if name == "startswith" else full.endswith(pre))
         if isinstance(obj, NodeV):
-            if name == "split" and args and isinstance(args[0], Const) and args[0].v == "_":
+            if name in ("split", "rsplit") and args and isinstance(args[0], Const) and args[0].v == "_":
                 return ListObj([obj])
             if name == "startswith" and len(args) == 1 and isinstance(args[0], NodeV):
                 return Const(LABELS[obj.role].startswith(LABELS[args[0].role]))
@@ -328,6 +332,46 @@ def check_dag_and_paths(repo: Repo, rep: Report, tier="quick", which=("dag", "pa
         if tier == "quick":
             # two stored pairs per shape (64 presence valuations each); the three-pair shapes run in the thorough tier
             shapes = [Shape(sh.name + " (first two pairs)" if len(sh.edges) > 2 else sh.name, sh.nodes, sh.edges[:2], directed) for sh in shapes]
+        def run_case(shape, ids, root, vt, window, str_nodes, seed, cls=cls, directed=directed, methods=methods):
+            stats["runs"] += 1
+            P = PresenceTable(shape, seed, ids)
+            win = [t for t in ids if (window[0] is None or t.k >= window[0].k) and (window[1] is None or t.k <= window[1].k)]
+            wit = "%s %s | root %s, v=%s, window=%s | present: %s" % (
+                cls, shape.name, root, vt, "all ids (t+1, t+2, t+4)" if window[0] is None else "[t+2,t+3] of ids t+1, t+2, t+4",
+                ", ".join("%s%s%s@%s" % (k[1][0], "->" if directed else "-", k[1][1], k[2]) for k, v in sorted(seed.items(), key=str) if v) or "nothing")
+            env = {"G": SelfV(), "u": NodeV(root), "v": NodeV(vt) if vt else NONE,
+                   "start": window[0] if window[0] is not None else NONE, "end": window[1] if window[1] is not None else NONE}
+            if "dag" in which:
+                w = DagLoopWorld(cls, shape, dict(seed), methods, functions, n_ids, str_nodes)
+                ip = Interp(w, ot, max_depth=8)
+                try:
+                    val = ip.call_function(fn_dag, dict(env))
+                    stats["dags"] += 1
+                    _judge_dag(add, c_dag, val, P, shape, root, vt, win, wit)
+                except AbstractRaise as r:
+                    add(c_dag, "raises:%s" % r.exc, "temporal_dag raises %s (%s)" % (r.exc, r.detail), wit, getattr(r.node, "lineno", 0))
+            if "paths" in which:
+                w = DagLoopWorld(cls, shape, dict(seed), methods, functions, n_ids, str_nodes)
+                ip = Interp(w, ot, max_depth=10)
+                env2 = dict(env)
+                env2["sample"] = Const(1)
+                try:
+                    val = ip.call_function(fn_trp, env2)
+                    stats["paths"] += 1
+                    _judge_paths(add, c_trp, val, P, shape, root, vt, win, window, wit)
+                except AbstractRaise as r:
+                    add(c_trp, "raises:%s" % r.exc, "time_respecting_paths raises %s (%s)" % (r.exc, r.detail), wit, getattr(r.node, "lineno", 0))
+
+        if "dag" in which:
+            # the root carries a self-loop: an occurrence must not become its own successor
+            loop = Shape("self-loop A-A, A-B" if not directed else "self-loop A->A, A->B", ["A", "B"], [("A", "A"), ("A", "B")], directed)
+            ids = [T(k) for k in IDS[:n_ids]]
+            keep = which
+            which = ("dag",)
+            for vt in (None, "B"):
+                for seed in _seeds(loop, ids):
+                    run_case(loop, ids, "A", vt, (None, None), True, seed)
+            which = keep
         for shape in shapes:
             ids = [T(k) for k in IDS[:n_ids]]
             combos = [("A", None), ("A", "AB" if "AB" in shape.nodes else "C")]
@@ -337,34 +381,21 @@ def check_dag_and_paths(repo: Repo, rep: Report, tier="quick", which=("dag", "pa
                 for window in ((None, None), (T(2), T(3))):
                     for str_nodes in ((True,) if tier == "quick" else (True, False)):
                         for seed in _seeds(shape, ids):
-                            stats["runs"] += 1
-                            P = PresenceTable(shape, seed, ids)
-                            win = [t for t in ids if (window[0] is None or t.k >= window[0].k) and (window[1] is None or t.k <= window[1].k)]
-                            wit = "%s %s | root %s, v=%s, window=%s | present: %s" % (
-                                cls, shape.name, root, vt, "all ids (t+1, t+2, t+4)" if window[0] is None else "[t+2,t+3] of ids t+1, t+2, t+4",
-                                ", ".join("%s%s%s@%s" % (k[1][0], "->" if directed else "-", k[1][1], k[2]) for k, v in sorted(seed.items(), key=str) if v) or "nothing")
-                            env = {"G": SelfV(), "u": NodeV(root), "v": NodeV(vt) if vt else NONE,
-                                   "start": window[0] if window[0] is not None else NONE, "end": window[1] if window[1] is not None else NONE}
-                            if "dag" in which:
-                                w = DagLoopWorld(cls, shape, dict(seed), methods, functions, n_ids, str_nodes)
-                                ip = Interp(w, ot, max_depth=8)
-                                try:
-                                    val = ip.call_function(fn_dag, dict(env))
-                                    stats["dags"] += 1
-                                    _judge_dag(add, c_dag, val, P, shape, root, vt, win, wit)
-                                except AbstractRaise as r:
-                                    add(c_dag, "raises:%s" % r.exc, "temporal_dag raises %s (%s)" % (r.exc, r.detail), wit, getattr(r.node, "lineno", 0))
-                            if "paths" in which:
-                                w = DagLoopWorld(cls, shape, dict(seed), methods, functions, n_ids, str_nodes)
-                                ip = Interp(w, ot, max_depth=10)
-                                env2 = dict(env)
-                                env2["sample"] = Const(1)
-                                try:
-                                    val = ip.call_function(fn_trp, env2)
-                                    stats["paths"] += 1
-                                    _judge_paths(add, c_trp, val, P, shape, root, vt, win, window, wit)
-                                except AbstractRaise as r:
-                                    add(c_trp, "raises:%s" % r.exc, "time_respecting_paths raises %s (%s)" % (r.exc, r.detail), wit, getattr(r.node, "lineno", 0))
+                            run_case(shape, ids, root, vt, window, str_nodes, seed)
+        # walks that return to their source (a 3-cycle closing at an instant where the source interacts again): the place
+        # where two consecutive hops can carry the same time.  Three stored pairs, a few targeted presence patterns.
+        ids = [T(k) for k in IDS[:n_ids]]
+        if directed:
+            cyc = Shape("cycle A->B, B->AB, AB->A", ["A", "B", "AB"], [("A", "B"), ("B", "AB"), ("AB", "A")], True)
+            pats = {("A", "B"): [(1,), (1, 4), (1, 2)], ("B", "AB"): [(2,), (2, 4)], ("AB", "A"): [(4,), (2, 4)]}
+        else:
+            cyc = Shape("triangle A-B-C", ["A", "B", "C"], [("A", "B"), ("B", "C"), ("A", "C")], False)
+            pats = {("A", "B"): [(1,), (1, 4), (1, 2)], ("B", "C"): [(2,), (2, 4)], ("A", "C"): [(4,), (2, 4)]}
+        keys = sorted(pats, key=str)
+        for combo in itertools.product(*[pats[k] for k in keys]):
+            seed = {("present", k, repr(t)): (t.k in on) for k, on in zip(keys, combo) for t in ids}
+            for vt in (None, "B"):
+                run_case(cyc, ids, "A", vt, (None, None), True, seed)
     for (construct, key), f in sorted(findings.items()):
         rep.finding("Q.paths", construct, key, f["message"] + " [%d valuations]" % f["count"], witness=f["witness"], line=f["line"])
     if "dag" in which:
@@ -406,6 +437,9 @@ def _judge_dag(add, construct, val, P, shape, root, vt, win, wit):
         (x, s), (y, t) = _occ(a), _occ(b)
         if y is None or t is None:
             add(construct, "edge:shape", "edge %r -> %r does not end in a time-stamped occurrence" % (a, b), wit)
+            continue
+        if (x, s) == (y, t):
+            add(construct, "edge:cycle", "edge %r -> %r starts and ends in the same occurrence: the result is not acyclic" % (a, b), wit)
             continue
         if t not in wk:
             add(construct, "edge:outside-window", "edge %r -> %r: its instant lies outside the window" % (a, b), wit)
